@@ -45,6 +45,9 @@ elif check == "mass_pd":
 elif check == "mass_total":
     print("t'Mt per direction", r["M_dir"], "expected", expect)
     bad = any(abs(x - expect) > 1e-9 * abs(expect) for x in r["M_dir"])
+elif check == "beam_moment":
+    print("x'Mt =", r["M_moment"], "expected sum_e rho_e A int_e x dx =", expect, " element lengths", r["L_e"])
+    bad = abs(r["M_moment"] - expect) > 1e-9 * abs(expect)
 elif check == "beam_rigid":
     print("|K r|/(|K||r|) for each rigid translation and rotation:", r["rigid_residual"], " local frame |P'P - I| =", r["frame_orthonormality_defect"])
     bad = max(r["rigid_residual"]) > 1e-9
@@ -141,6 +144,125 @@ def parse_list(out, tag):
     if not m:
         return None
     return re.findall(r'"([A-Z0-9]+)"', m.group(1))
+
+def _avg(spec, w, e):
+    """element average of a coefficient field on an affine element: sum_p v_ep w_p / sum_p w_p"""
+    m, v = spec["mode"], spec["values"]
+    if m == "scalar":
+        return float(v)
+    if m == "elem":
+        return float(v[e])
+    row = v if m == "gauss" else v[e]
+    return sum(float(x) * wp for x, wp in zip(row, w)) / sum(w)
+
+
+def grid_cases(ctx, factory):
+    """non-uniform structured meshes with coefficient FIELDS (per element / per Gauss point / full),
+    on meshes where Ne equals the number of Gauss points of the rule used and where it does not;
+    2-D meshes embedded in 3-D (dim 2, inDim 3) with thickness != 1."""
+    rng = ctx.rng
+    import math
+
+    def cuts(n, L):
+        c = sorted(rng.uniform(0.15, 0.85) for _ in range(n - 1))
+        c = [0.0] + [L * (0.1 + 0.8 * x) for x in c] + [L]
+        return [round(x, 4) for x in c]
+
+    def field(mode, Ne, nPg):
+        f = lambda: round(rng.uniform(0.5, 6.0), 3)
+        if mode == "scalar":
+            return {"mode": mode, "values": f()}
+        if mode == "elem":
+            return {"mode": mode, "values": [f() for _ in range(Ne)]}
+        if mode == "gauss":
+            return {"mode": mode, "values": [f() for _ in range(nPg)]}
+        return {"mode": mode, "values": [[f() for _ in range(nPg)] for _ in range(Ne)]}
+
+    def rot():
+        a, b = rng.uniform(0.3, 1.2), rng.uniform(0.3, 1.2)
+        Rx = [[1, 0, 0], [0, math.cos(a), -math.sin(a)], [0, math.sin(a), math.cos(a)]]
+        Rz = [[math.cos(b), -math.sin(b), 0], [math.sin(b), math.cos(b), 0], [0, 0, 1]]
+        R = [[sum(Rx[i][k] * Rz[k][j] for k in range(3)) for j in range(3)] for i in range(3)]
+        return {"R": R, "t": [rng.uniform(-1, 1) for _ in range(3)]}
+
+    shapes = [("QUAD4", (2, 2, 0)), ("QUAD4", (3, 2, 0)), ("TRI6", (3, 1, 0)), ("TRI3", (2, 1, 0)), ("HEXA8", (2, 2, 2)), ("HEXA8", (3, 2, 1)),
+              ("SEG2", (2, 0, 0)), ("SEG3", (3, 0, 0)), ("SEG3", (2, 0, 0)), ("SEG2", (5, 0, 0))]
+    out = []
+    for et, (nx, ny, nz) in shapes:
+        mult = 2 if et in ("TRI3", "TRI6") else 1
+        Ne = nx * max(ny, 1) * max(nz, 1) * mult
+        nm, nr = factory[(et, "mass")]["npg"], factory[(et, "rigi")]["npg"]
+        dim = 1 if ny == 0 else 2 if nz == 0 else 3
+        base = {"kind": "grid", "elem": et, "xs": cuts(nx, 2.0), "ys": cuts(ny, 1.0) if ny else None, "zs": cuts(nz, 1.5) if nz else None,
+                "label": "grid", "field_seed": rng.randrange(10**6), "shape": "Ne=%d,nPg_mass=%d,nPg_rigi=%d" % (Ne, nm, nr)}
+        # a 1-D array whose length equals both Ne and nPg is per-ELEMENT by the library's own rule
+        mass_modes = ["elem", "full"] + (["gauss"] if Ne != nm else [])
+        rigi_modes = ["elem", "full"] + (["gauss"] if Ne != nr else [])
+        for mm in mass_modes:
+            km = rng.choice(rigi_modes)
+            th = round(rng.uniform(0.4, 1.8), 3)
+            if dim >= 2:
+                out.append(dict(base, phys="elastic", params={"v": 0.3, "planeStress": True, "thickness": th},
+                                coefs={"rho": field(mm, Ne, nm), "E": field(rng.choice(["elem", "scalar"]), Ne, nr)}, modes="rho:%s" % mm))
+            which = rng.choice(["rho", "c"])
+            out.append(dict(base, phys="thermal", params={"thickness": th},
+                            coefs={"rho": field(mm if which == "rho" else "scalar", Ne, nm), "c": field(mm if which == "c" else "scalar", Ne, nm), "k": field(km, Ne, nr)},
+                            modes="%s:%s,k:%s" % (which, mm, km)))
+        if dim == 2:
+            # the same 2-D mesh as a tilted plate in 3-D (dim 2, inDim 3): the thickness still applies
+            th = round(rng.uniform(0.4, 0.8), 3)
+            out.append(dict(base, phys="thermal", params={"thickness": th}, embed=rot(), label="grid-embedded",
+                            coefs={"rho": field("scalar", Ne, nm), "c": field("elem", Ne, nm), "k": field("elem", Ne, nr)}, modes="c:elem,k:elem"))
+        if dim == 1:
+            out.append(dict(base, phys="thermal", params={"thickness": 1.0}, embed=rot(), label="grid-embedded",
+                            coefs={"rho": field("elem", Ne, nm), "c": field("scalar", Ne, nm), "k": field("elem", Ne, nr)}, modes="rho:elem,k:elem"))
+    return out
+
+
+def check_grid(ctx, c, r, factory):
+    from corr.C02_impl import grid_data
+    n = c["elem"]
+    tag = "%s:%s:%s:%s:%s" % (c["label"], c["phys"], n, c["shape"], c["modes"])
+    ctx.note_case(tag)
+    X, conn, meas = grid_data(c)
+    wm = [T_gauss.fr(x) for x in factory[(n, "mass")]["w"]]
+    wr = [T_gauss.fr(x) for x in factory[(n, "rigi")]["w"]]
+    wm, wr = [float(x) for x in wm], [float(x) for x in wr]
+    dim = r["dim"]
+    th = c["params"].get("thickness", 1.0) if dim == 2 else 1.0
+    co = c["coefs"]
+    Ne = len(meas)
+    okg = r["connect_same"] and r["Ne"] == Ne and abs(r["measure"] - float(sum(meas))) <= 1e-9 * float(sum(meas)) and (c.get("embed") is None or r["inDim"] == 3)
+    ctx.obligation("grid mesh built as intended (%s)" % tag, okg, "measure %r vs %r, inDim %s" % (r["measure"], float(sum(meas)), r["inDim"]))
+    if not okg:
+        ctx.violation("grid-mesh:" + tag, "%s: mesh measure %r (exact %r) / element order / embedding differ from the generated grid" % (tag, r["measure"], float(sum(meas))), {"case": c}, True)
+        return
+    # INDEPENDENT totals: sum_e (element average of the coefficient) * measure_e * thickness
+    if c["phys"] == "elastic":
+        expM = th * sum(_avg(co["rho"], wm, e) * meas[e] for e in range(Ne))
+        expE = th * sum(r["density_e"][e] * meas[e] for e in range(Ne))
+    else:
+        expM = th * sum(_avg(co["rho"], wm, e) * _avg(co["c"], wm, e) * meas[e] for e in range(Ne))
+        expE = th * sum(_avg(co["k"], wr, e) * r["density_e"][e] * meas[e] for e in range(Ne))
+    K, M = r["K"], r["M"]
+    okm = all(abs(x - expM) <= 1e-9 * abs(expM) for x in r["M_dir"])
+    ctx.obligation("coefficient field: sum of %s entries = sum_e coef_e*measure_e*thickness (%s)" % ("mass" if c["phys"] == "elastic" else "capacity", tag), okm, "%s vs %r" % (r["M_dir"], expM))
+    if not okm:
+        ctx.violation("coef-mass:" + tag, "%s: with a coefficient field the %s entries sum to %s per direction, independent sum_e coef_e*measure_e*thickness = %r" % (
+            tag, "mass" if c["phys"] == "elastic" else "capacity", r["M_dir"], expM), replay(c, "mass_total", expM), True)
+    oke = abs(r["lin_energy"] - expE) <= 1e-9 * abs(expE)
+    ctx.obligation("coefficient field: u'Ku of a linear field = thickness*sum_e density_e*measure_e (%s)" % tag, oke, "%r vs %r" % (r["lin_energy"], expE))
+    if not oke:
+        ctx.violation("coef-energy:" + tag, "%s: u'Ku of a linear field is %r, independent thickness*sum_e coef_e*density*measure_e = %r" % (tag, r["lin_energy"], expE), replay(c, "energy", expE), True)
+    if r.get("mass_prop") is not None:
+        okp = abs(r["mass_prop"] - expM) <= 1e-9 * abs(expM)
+        ctx.obligation("coefficient field: simu.mass (%s)" % tag, okp, "%r vs %r" % (r["mass_prop"], expM))
+        if not okp:
+            ctx.violation("coef-simu-mass:" + tag, "%s: simu.mass = %r, independent total %r" % (tag, r["mass_prop"], expM), {"case": c}, True)
+    oks = K["sym_defect"] <= 1e-12 * K["absmax"] and K["eig_min"] >= -1e-10 * K["eig_max"] and M["sym_defect"] <= 1e-12 * M["absmax"] and M["eig_min"] > 1e-10 * M["eig_max"]
+    ctx.obligation("coefficient field: K symmetric PSD, M/C symmetric positive definite (%s)" % tag, oks)
+    if not oks:
+        ctx.violation("coef-sympsd:" + tag, "%s: K not symmetric PSD or M/C not SPD with a positive coefficient field (K min %.2e, M min %.2e)" % (tag, K["eig_min"] / K["eig_max"], M["eig_min"] / M["eig_max"]), replay(c, "sym_psd", None), True)
 
 
 def run(ctx):
@@ -326,6 +448,12 @@ def run(ctx):
                         # deliberately NOT perpendicular to the fibre: the setter must re-orthogonalise it
                         c["yAxis"] = [ctx.rng.uniform(-1, 1), ctx.rng.uniform(0.5, 1.5), ctx.rng.uniform(-1, 1)] if bd == 3 else [-d[1] + 0.4 * d[0], d[0] + 0.4 * d[1], 0.0]
                     cases.append(c)
+    cases += grid_cases(ctx, factory)
+    for et, n, bd, timo in (("SEG2", 2, 2, False), ("SEG2", 2, 3, True), ("SEG2", 3, 1, False), ("SEG3", 4, 2, True), ("SEG3", 3, 3, False), ("SEG4", 6, 2, False)):
+        nb = factory[(et, "beam")]["npg"]
+        cases.append({"kind": "beam", "elem": et, "beamDim": bd, "timo": timo, "L": 9.0, "n": n, "b": 0.3, "h": 0.5, "E": 210.0, "v": 0.3, "rho": 2.0,
+                      "rho_elem": [round(ctx.rng.uniform(0.5, 6.0), 3) for _ in range(n)], "label": "beam",
+                      "orient": "x-axis:rho-per-element:Ne%s=nPg" % ("=" if n == nb else "!")})
     rc, out, err = ctx.impl_python(os.path.join(common.VERIF, "corr", "C02_impl.py"), input=json.dumps({"cases": cases}), timeout=1500)
     if rc != 0 or "@@JSON@@" not in out:
         ctx.obligation("impl-run", False, err[-1500:])
@@ -340,6 +468,9 @@ def run(ctx):
         if "error" in r:
             ctx.note_case(None)
             ctx.violation("impl-error:%s:%s:%s" % (lab, c.get("phys", ""), n), "%s %s %s raises %s" % (lab, c.get("phys", ""), n, r["error"]), {"case": c, "trace": r.get("trace")}, True)
+            continue
+        if c["kind"] == "grid":
+            check_grid(ctx, c, r, factory)
             continue
         if c["kind"] == "layout":
             rec = E[n]
@@ -365,6 +496,16 @@ def run(ctx):
             nr = {1: 1, 2: 3, 3: 6}[c["beamDim"]]
             key = "%s:dim%d:%s:%s" % (n, c["beamDim"], "timoshenko" if c["timo"] else "euler-bernoulli", c["orient"])
             expM = c["rho"] * c["b"] * c["h"] * r["L"]
+            if c.get("rho_elem") is not None:
+                # INDEPENDENT totals of a per-element density: sum_e rho_e A L_e and the first moment
+                rho_e = [c["rho_elem"][i % len(c["rho_elem"])] for i in range(r["Ne"])]
+                expM = sum(re * c["b"] * c["h"] * le for re, le in zip(rho_e, r["L_e"]))
+                expMo = sum(re * c["b"] * c["h"] * (x2 * x2 - x1 * x1) / 2 for re, (x1, x2) in zip(rho_e, r["x_ends_e"]))
+                okmo = abs(r["M_moment"] - expMo) <= 1e-9 * abs(expMo)
+                ctx.obligation("beam: first moment of the mass x'Mt = sum_e rho_e A int x dx (%s)" % key, okmo, "%r vs %r" % (r["M_moment"], expMo))
+                if not okmo:
+                    ctx.violation("beam-mass-moment:" + key, "beam with per-element density %s (%d elements, %d beam Gauss points): x'Mt = %r, expected sum_e rho_e*A*int_e x dx = %r — the density field is not applied element by element" % (
+                        rho_e, r["Ne"], r["nPg_beam"], r["M_moment"], expMo), dict(replay(c, "beam_moment", expMo)), True)
             okr = max(r["rigid_residual"]) <= 1e-9
             ctx.obligation("beam: K * (each rigid translation / rotation) = 0 (%s)" % key, okr, "max |K r|/(|K||r|) = %.2e" % max(r["rigid_residual"]))
             if not okr:
